@@ -57,7 +57,8 @@ def enum_cases(quick: bool):
 
 
 TIER_TARGETS = [{"type": "doc", "id": "1"}, {"type": ["doc", "file"], "attrs": {"level": 1}}, {"type": "doc"}, {"type": "*"}]
-VARIANTS = [(e, c) for e in ("permit", "deny") for c in (None, True, False, {"<": [{"attr": "context.n"}, "x"]})]
+VARIANTS = [(e, c) for e in ("permit", "deny") for c in (None, True, False, {"<": [{"attr": "context.n"}, "x"]},
+                                                          {"before": ["2024-01-01T00:00:00Z", "2025-01-01T00:00:00Z"]})]   # literal-only, mode-sensitive
 
 
 def tier_cases(quick: bool):
@@ -69,7 +70,7 @@ def tier_cases(quick: bool):
     for ti, tgt in enumerate(TIER_TARGETS):
         for n in (1, 2, 3):
             for k, vs in enumerate(itertools.product(VARIANTS, repeat=n)):
-                if quick and n == 3 and (k + ti) % 3:
+                if quick and n == 3 and (k + ti) % 5:
                     continue
                 rules = []
                 for j, (e, c) in enumerate(vs):
@@ -77,8 +78,8 @@ def tier_cases(quick: bool):
                     if c is not None:
                         rule["condition"] = c
                     rules.append(rule)
-                for algo in gen.ALGOS:
-                    yield {"algorithm": algo, "rules": rules}, req, {"strict": False}
+                for ai, algo in enumerate(gen.ALGOS):
+                    yield {"algorithm": algo, "rules": rules}, req, {"strict": (k + ai) % 4 == 0}
                     if ti > 0 and n == 2:
                         yield {"algorithm": algo, "rules": [rules[0], other, rules[1]]}, req, {"strict": False}
 
@@ -187,7 +188,7 @@ def run_cases(run: lib.Run, audit: dict, scale: int = 1):
 def check(run: lib.Run, audit: dict) -> int:
     run.rule = ("exhaustive: every single rule over {4 action lists × 4 types × 3 ids × 3 attrs × 2 effects} × 3 algorithms × 3 requests; all ordered "
                 "pairs over a 1/11 (quick) / 1/5 (thorough) subsample; every sequence of ≤3 rules inside each of the four tiers over {permit,deny} × "
-                "{no/true/false/ill-typed condition} × 3 algorithms (quick: a third of the triples), also with a more specific rule for another "
+                "{no/true/false/ill-typed/literal-only time condition} × 3 algorithms (quick: a fifth of the triples; a quarter in strict mode), also with a more specific rule for another "
                 "resource in between; sessions: one Guard answering 2–6 requests that differ in attributes/id only (the compiled function must "
                 "be stateless); random 3–4-rule policies; random schema-grammar policies with explicit "
                 "algorithm and sets; every third case re-run with an inserted irrelevant rule. non-trivial = a rule decided")
@@ -195,7 +196,7 @@ def check(run: lib.Run, audit: dict) -> int:
     run.assumptions = ["single policies carry an explicit algorithm (C03's quantifier); the default-algorithm divergence is C17/F1"]
     if not audit["ok"]:
         raise lib.CheckError(f"Lean build/audit failed at {audit['stage']}: {audit.get('log') or audit.get('forbidden') or audit.get('bad_axioms')}")
-    run_cases(run, audit)
+    run_cases(run, audit, scale=run.boost)
     violations = []
     if run.disagreements and not run.spec_failures:
         run_cases(run, audit, scale=4)
